@@ -26,7 +26,7 @@ def runSession (parse : Str → Option Str) (boundKey : Bool) :
   | _, _, _ => none
 
 /-- `(substitute SQL VALS)`; `(bind SQL PARAMS)`; `(scan T)`; `(scanq T)`; `(lexstr T)`;
-`(count SQL)` → number of placeholders; `(session KEY (bad T…) (call …)…)` with KEY = unbound | bound -/
+`(count SQL)` → number of placeholders; `(bindint TY N)` → `(ok N')` / `(err range)`; `(session KEY (bad T…) (call …)…)` with KEY = unbound | bound -/
 def handle : List Sx → Sx
   | [.atom "substitute", sql, vs] =>
     match decChars sql, decPVals vs with
@@ -50,6 +50,15 @@ def handle : List Sx → Sx
   | [.atom "filled", sql, vs] =>
     match decChars sql, decPVals vs with
     | some s, some v => encScan ((scanQ s).map (fill · v))
+    | _, _ => .atom "bad-request"
+  | [.atom "bindint", .atom ty, n] =>
+    let t : Option IntTy := match ty with
+      | "smallint" => some .smallint | "integer" => some .integer | "bigint" => some .bigint | _ => none
+    match t, n.int? with
+    | some t, some n =>
+      match bindReadInt t n with
+      | .ok v => .list [.atom "ok", sxInt v]
+      | .error _ => .list [.atom "err", .atom "range"]
     | _, _ => .atom "bad-request"
   | [.atom "count", sql] =>
     match decChars sql with
